@@ -108,7 +108,7 @@ func execRun(t *testing.T, sc *Scenario, fixed []uint32, zeroFrom int, keepLog b
 	res = &RunResult{Prop: sc.Prop, Seed: sc.Seed, Mode: sc.Mode, FaultFree: sc.FaultFree}
 	// real-time watchdog (this goroutine is outside the bubble): a hung run is
 	// harness trouble, never a verdict
-	wd := time.AfterFunc(90*time.Second, func() {
+	wd := time.AfterFunc(240*time.Second, func() {
 		buf := make([]byte, 1<<21)
 		n := runtime.Stack(buf, true)
 		fmt.Fprintf(os.Stderr, "WATCHDOG: run seed=%d prop=%s hung\n%s\n", sc.Seed, sc.Prop, buf[:n])
